@@ -160,6 +160,10 @@ type World struct {
 	podLists int
 
 	D Decider
+	// AfterGet holds, per node name, a write another client makes right after escalator's next GET of
+	// that node (one-shot).
+	AfterGet map[string]func(n *v1.Node)
+	rv       int
 	// DescribeOmit, when set, names ASGs that a successful DescribeAutoScalingGroups answer leaves out.
 	DescribeOmit func(asg string) bool
 
@@ -180,7 +184,7 @@ type World struct {
 
 // NewWorld returns an empty world.
 func NewWorld() *World {
-	return &World{EC2: map[string]*Inst{}, GroupASG: map[string]string{}, ReadyFromPoll: 1, StatusPageSize: 50, FleetSplit: 1, Phase: "build"}
+	return &World{EC2: map[string]*Inst{}, GroupASG: map[string]string{}, AfterGet: map[string]func(*v1.Node){}, ReadyFromPoll: 1, StatusPageSize: 50, FleetSplit: 1, Phase: "build"}
 }
 
 func (w *World) decide(op, target string) Verdict {
@@ -356,10 +360,18 @@ func (w *World) AddNode(asg *ASG, o NodeOpt) *v1.Node {
 	return n
 }
 
+// bumpRV gives the node object a new resource version.
+func (w *World) bumpRV(n *v1.Node) {
+	w.rv++
+	n.ResourceVersion = fmt.Sprint(1000 + w.rv)
+}
+
 func (w *World) makeNode(asg *ASG, id string, created time.Time) *v1.Node {
+	w.rv++
 	return &v1.Node{
 		ObjectMeta: metav1.ObjectMeta{
 			Name:              NodeName(id),
+			ResourceVersion:   fmt.Sprint(1000 + w.rv),
 			Labels:            map[string]string{asg.LabelKey: asg.LabelValue},
 			CreationTimestamp: metav1.NewTime(created),
 		},
